@@ -151,6 +151,13 @@ let () =
               (match o_greedy u p with
                | None -> "none"
                | Some g -> b (exactb (table_provider u) p g h))
+            | "exactn" ->
+              (* U P earlier-history current-history -> none | 0/1 : a later solve on the same solver requests only what the
+                 greedy selection of its problem needs, and everything it needs was requested now or before *)
+              let u = universe s in let p = problem s in let hp = hist s in let hc = hist s in
+              (match o_greedy u p with
+               | None -> "none"
+               | Some g -> b (exact_nextb (table_provider u) p g hp hc))
             | "graph" ->
               (* U P graph -> truthful reachable refutes *)
               let u = universe s in let p = problem s in let g = graph s in
